@@ -120,7 +120,12 @@ class TemplateWriter(IWriter):
             if self.dry_run:
                 self.total_pages += 1
             else:
-                with self.build_directory.joinpath(ob.url).open('wb') as fobj:
+                page_path = self.build_directory.joinpath(ob.url)
+                if page_path.is_symlink():
+                    # A previous run with a single root module left <root>.html -> index.html:
+                    # the page must not be written through that link.
+                    page_path.unlink()
+                with page_path.open('wb') as fobj:
                     self._writeDocsForOne(ob, fobj)
         for o in ob.contents.values():
             self._writeDocsFor(o)
